@@ -5,7 +5,7 @@
    the decoder is replayed on the new bytes.  Every kind also fills exactly Size() bytes (C01SizeProofs). *)
 From V.lib Require Import Base.
 From V.c01 Require Import C01Codec C01Model C01LeafProofs C01Leaf2Proofs C01Leaf3Proofs C01Leaf4Proofs C01Leaf5Proofs
-  C01TableProofs C01TreeProofs C01SizeProofs C01LocalProofs.
+  C01TableProofs C01TreeProofs C01SizeProofs C01LocalProofs C01EsdsProofs.
 
 (* the header seen at decode is the one the encoder writes (what exact_box asks of a leaf) *)
 Definition hdr_fits (h : hdr) (l : leaf) : Prop :=
@@ -692,6 +692,19 @@ Proof.
   intros r2. unfold dec_hvcC, pbind. rewrite rdB_lit by exact Hpl. rewrite Hrec, Hd. reflexivity.
 Qed.
 
+(* ---------------------------------------------------------------- esds *)
+(* under the guard (size fields in the encoder's form, no UnknownData) the captured size fields ARE the encoder's,
+   so the re-encoding is the input, and the decoder did not look behind it (esds_core) *)
+Lemma stable_esds : leaf_stable dec_esds.
+Proof.
+  intros h r l rsv r' Hok Hnm H G Hf _.
+  destruct (esds_core _ _ _ _ _ Hok H) as (Hok' & Hname & b & Hb & Hr & Hg). destruct (Hg G) as [Hd Hrep].
+  pose proof (esds_is _ _ _ _ _ H) as Hl.
+  assert (Hsg : leaf_size_guard l = true) by (destruct l; try contradiction; reflexivity).
+  subst rsv. exists b. split; [exact Hb|]. split; [rewrite Hr; rewrite lenN_app; reflexivity|].
+  split; [now apply body_size|]. exact Hrep.
+Qed.
+
 (* ---------------------------------------------------------------- every table entry *)
 Lemma pre_leaf_stable d : pre_stable d -> leaf_stable d.
 Proof. intros H h r l rsv r' Hok Hnm E G _ _. exact (H _ _ _ _ _ Hok Hnm E G). Qed.
@@ -755,7 +768,7 @@ Proof.
           | exact (pre_leaf_stable _ pstable_tfra) | exact stable_pssh | exact stable_url | exact stable_avcC
           | exact stable_btrt | exact stable_pasp | exact (pre_leaf_stable _ pstable_colr) | exact stable_clap
           | exact stable_schm | exact stable_cslg | exact stable_senc | exact stable_emsg | exact stable_elng
-          | exact stable_kind | exact stable_hvcC | exact stable_subs ].
+          | exact stable_kind | exact stable_hvcC | exact stable_subs | exact stable_esds ].
 Qed.
 
 Lemma pre_table_stable : Forall (fun e => pre_stable (fst (snd e))) pre_table.
